@@ -5,6 +5,8 @@ from vcheck import *
 F08_SIG = {"kind": "dangling-funcref-private-table", "witness": "F08"}
 F08B_SIG = {"kind": "dangling-funcref-imported-global", "witness": "F08b"}
 MEMFREE_SIG = {"kind": "shared-memory-freed-on-close", "witness": "MEMFREE"}
+GIMM_SIG = {"kind": "dangling-funcref-imported-global-no-engine-edge", "witness": "GIMM"}
+ENGINES = ("interp", "compiler")
 ORDINARY = ("e:exit:", "e:refused", "e:nohandle")
 
 
@@ -14,19 +16,43 @@ def pairs(l): return "[" + "; ".join("(%d, %d)" % (a, b) for a, b in (l or [])) 
 def nimprec(q): return len(q.get("impf") or []) + len(q.get("imps") or []) + len(q.get("impa") or [])
 
 
-def coq_mod(mods, m):
+def ntab(m): return len(m.get("impt") or []) + m["nexp"] + m["npriv"]
+def exp_holder(m, e): return ntab(m) + m["nglob"] + e
+def imp_holder(m, q): return ntab(m) + m["nglob"] + len(m.get("expg") or []) + q
+def nhold(m): return imp_holder(m, len(m.get("impg") or []))
+
+
+def coq_mod(mods, m, eng):
+    """eng: wazevo's module engine owns the globals (buildGlobals sets GlobalInstance.Me), the interpreter's does not"""
     impf = list(m.get("impf") or [])
     for (m2, _t) in (m.get("imps") or []) + (m.get("impa") or []):
         # an imported store function / memory accessor is a function record of m2: any own record has the same code owner
         impf.append([m2, nimprec(mods[m2])])
-    return "mkM %s %s %d %d %d %d %d [%s] 0 []" % (pairs(impf), pairs(m.get("impt")), m["nfun"], m["nexp"], m["npriv"], m["nglob"], m["size"],
-                                                   "; ".join("(%d, %d, %d)" % tuple(e) for e in (m.get("elems") or [])))
+    me = "true" if eng == "compiler" else "false"
+    def ginit(x): return "GNull" if x == -1 else ("(GFunc %d)" % (nimprec(m) + x) if x >= 0 else "(GGet %d)" % (-2 - x))
+    expg = "; ".join("mkG %s %s %s" % ("true" if mut else "false", ginit(init), me) for mut, init in (m.get("expg") or []))
+    impg = [(j, exp_holder(mods[j], e)) for j, e in (m.get("impg") or [])]
+    gel = "; ".join("(%d, %d, %d)" % (t, k, imp_holder(m, q)) for t, k, q in (m.get("gelems") or []))
+    return "mkM %s %s %d %d %d %d %d [%s] [%s] %s [%s]" % (pairs(impf), pairs(m.get("impt")), m["nfun"], m["nexp"], m["npriv"], m["nglob"], m["size"],
+                                                          "; ".join("(%d, %d, %d)" % tuple(e) for e in (m.get("elems") or [])), expg, pairs(impg), gel)
 
-
-def ntab(m): return len(m.get("impt") or []) + m["nexp"] + m["npriv"]
+TINY = "mkM [] [] 1 0 0 0 4 [] [] [] []"      # the unrelated module of the "xc" steps: index len(mods)
 
 
 def coq_op(h, o):
+    """the model operations of one step (a list: an "xc" step is n compile/instantiate/close/drop rounds of the tiny module)"""
+    k, a = o[0], list(o[1:])
+    mods = h["mods"]
+    if k == "xc":
+        T = len(mods)
+        return ["HCompile %d" % T, "HInst %d" % T, "HCloseMod %d" % T, "HCloseCompiled %d" % T, "HDropMod %d" % T, "HDropCompiled %d" % T] * a[0] + ["HGc"]
+    if k == "gc": return ["HGc"]
+    # Go's collector may run at any moment (and the harness forces it after every close and drop): the model collects after
+    # EVERY step - the most aggressive collector; garbage never becomes reachable again, so nothing is lost
+    return [coq_op1(h, o), "HGc"]
+
+
+def coq_op1(h, o):
     k, a = o[0], list(o[1:])
     mods = h["mods"]
     def sl(m, t, kk): return 0 if t >= ntab(mods[m]) else kk      # a global has one slot whatever index the call passes
@@ -45,6 +71,9 @@ def coq_op(h, o):
     if k == "pass":
         m2, t = h["mods"][a[0]]["imps"][a[2]]
         return "HPass %d %d %d %d %d" % (a[0], a[1], m2, t, sl(m2, t, a[3]))
+    if k == "gp":
+        m2, t = h["mods"][a[0]]["imps"][a[2]]
+        return "HPassVal %d %d 0 %d %d %d" % (a[0], a[1], m2, t, sl(m2, t, a[3]))
     if k == "enter": return "HEnter %d" % a[0]
     # shared memory / global accessors: an exported call of own code, or of the wrapper of an imported accessor (the
     # record of that import); the host's api.Memory access is no call at all (own record: never dangling while held)
@@ -61,9 +90,9 @@ def coq_op(h, o):
     return {"closecache": "HCloseCache", "closert": "HCloseRuntime", "droprt": "HDropRuntime", "dropcache": "HDropCache", "gc": "HGc"}[k]
 
 
-def coq_case(h):
-    return "(%s, [%s], [%s])" % ("true" if h["cached"] else "false", "; ".join(coq_mod(h["mods"], m) for m in h["mods"]),
-                                 "; ".join(coq_op(h, o) for o in h["ops"]))
+def coq_case(h, eng):
+    return "(%s, [%s], [%s])" % ("true" if h["cached"] else "false", "; ".join([coq_mod(h["mods"], m, eng) for m in h["mods"]] + [TINY]),
+                                 "; ".join(x for o in h["ops"] for x in coq_op(h, o)))
 
 
 def parse_zlistlist(out, ident):
@@ -74,19 +103,28 @@ def parse_zlistlist(out, ident):
     return [[int(x) for x in re.findall(r"-?\d+", g)] for g in re.findall(r"\[([^\[\]]*)\]", inner)]
 
 
-def classify(hs):
-    """predictions of the Coq model, one list per history"""
+def classify(hs, eng):
+    """predictions of the Coq model for one engine, one list (one entry per step) per history"""
     preds = []
     SH = 60
     for s in range(0, len(hs), SH):
+        part = hs[s:s + SH]
         v = ("From Verif Require Import Engine.Lifetime.\nFrom Coq Require Import List ZArith.\nImport ListNotations.\n"
-             "Definition cases : list hcase := [\n" + ";\n".join(coq_case(h) for h in hs[s:s + SH]) + "].\n"
+             "Definition cases : list hcase := [\n" + ";\n".join(coq_case(h, eng) for h in part) + "].\n"
              "Definition M := Eval vm_compute in map classify cases.\nPrint M.\n")
-        rc, o = coq_eval("c09_%d" % s, v)
+        rc, o = coq_eval("c09_%s_%d" % (eng, s), v)
         l = parse_zlistlist(o, "M")
-        if rc != 0 or l is None or len(l) != len(hs[s:s + SH]):
+        if rc != 0 or l is None or len(l) != len(part):
             return None, o
-        preds += l
+        for h, flat in zip(part, l):
+            # regroup: the prediction of a step is that of its first model operation (an "xc" step: its first compilation)
+            out, i = [], 0
+            for op in h["ops"]:
+                n = len(coq_op(h, op))
+                out.append(flat[i] if n else 0); i += n
+            if i != len(flat):
+                return None, o
+            preds.append(out)
     return preds, ""
 
 
@@ -129,7 +167,7 @@ def mclassify(hs):
         v = ("From Verif Require Import Engine.Lifetime Engine.LifetimeMem.\nFrom Coq Require Import List ZArith.\nImport ListNotations.\nOpen Scope Z_scope.\n"
              "Definition cases : list mcase := [\n" +
              ";\n".join("([%s], [%s])" % ("; ".join(coq_mmod(m) for m in h["mods"]),
-                                           "; ".join(coq_mop(h, i, o, h["pred"]) for i, o in enumerate(h["ops"]))) for h in part) + "].\n"
+                                           "; ".join(coq_mop(h, i, o, h["predm"]) for i, o in enumerate(h["ops"]))) for h in part) + "].\n"
              "Definition M := Eval vm_compute in map mclassify cases.\nPrint M.\n")
         rc, o = coq_eval("c09m_%d" % s, v)
         m = re.search(r"M\s*=\s*(\[.*\])\s*:\s*list", o, re.S)
@@ -210,6 +248,60 @@ def mem_dist(h, obs, dist):
                     dist["uses_through_closed_importer"] += 1
 
 
+def glob_dist(h, obs, gd):
+    """distribution counters for exported/imported funcref globals of one executed history (compiler observations):
+    reads of an imported global by an importer whose exporter (as bound at the importer's instantiation) has been closed,
+    its compiled module closed, both handles dropped, and a collection forced since"""
+    mods = h["mods"]
+    gen = [0] * len(mods); held = [False] * len(mods); cmheld = [False] * len(mods)
+    state = {}            # (m, gen) -> dict(closed, cmclosed, dropped, cmdropped, gc)
+    bound = {}            # importer m -> [(exporter, gen)] per ImpG
+    cur_cm = [None] * len(mods)   # compiled module generation a module's instances come from
+    cmgen = [0] * len(mods); cmstate = {}
+    rt = True
+    def gone(key):
+        st = state.get(key)
+        return bool(st and st["closed"] and st["dropped"] and st["gc"] and cmstate.get(st["cm"], {}).get("gone_gc"))
+    for i, o in enumerate(h["ops"][:len(obs)]):
+        k, a = o[0], o[1:]
+        if k == "compile" and obs[i] == "ok":
+            m = a[0]
+            if cur_cm[m] is not None: cmstate[cur_cm[m]]["dropped"] = True
+            cmgen[m] += 1; cur_cm[m] = (m, cmgen[m]); cmstate[cur_cm[m]] = {"closed": False, "dropped": False, "gone_gc": False}
+        elif k == "inst" and obs[i] == "ok":
+            m = a[0]
+            if held[m] and (m, gen[m]) in state: state[(m, gen[m])]["dropped"] = True
+            gen[m] += 1; held[m] = True
+            state[(m, gen[m])] = {"closed": False, "dropped": False, "gc": False, "cm": cur_cm[m]}
+            bound[m] = [(j, gen[j]) for j, _e in (mods[m].get("impg") or [])]
+        elif k == "closemod" and held[a[0]]: state[(a[0], gen[a[0]])]["closed"] = True
+        elif k == "closert" and rt:
+            for st in state.values(): st["closed"] = True
+        elif k == "droprt": rt = False
+        elif k == "dropmod":
+            if held[a[0]]: state[(a[0], gen[a[0]])]["dropped"] = True
+            held[a[0]] = False
+        elif k == "closecm" and cur_cm[a[0]] is not None: cmstate[cur_cm[a[0]]]["closed"] = True
+        elif k == "dropcm":
+            if cur_cm[a[0]] is not None: cmstate[cur_cm[a[0]]]["dropped"] = True
+            cur_cm[a[0]] = None
+        elif k == "gc":
+            for st in state.values():
+                if st["closed"] and st["dropped"]: st["gc"] = True
+            for st in cmstate.values():
+                if st["closed"] and st["dropped"]: st["gone_gc"] = True
+        elif k == "xc" and obs[i] == "ok":
+            gd["extra_compile_steps_executed"] += 1; gd["extra_modules_compiled"] += a[0]
+        elif k in ("ind", "leavei", "cp", "gp") and (obs[i].startswith("v:") or obs[i] == "ok"):
+            m, t = a[0], a[1]
+            q = t - imp_holder(mods[m], 0)
+            if 0 <= q < len(mods[m].get("impg") or []) and q < len(bound.get(m) or []):
+                gd["reads_of_imported_global"] += 1
+                if gone(bound[m][q]):
+                    gd["reads_after_exporter_closed_dropped_collected"] += 1
+                    if mods[m].get("gonly"): gd["reads_after_exporter_collected_by_global_only_importer"] += 1
+
+
 def cut_of(h, p):
     """index of the first step that must not be executed (first dangling use; the enclosing in-flight block as a whole)"""
     ent = None
@@ -232,10 +324,12 @@ def run(tier, seed):
                    "Go's collector, finalizers and munmap are runtime behaviour: exercised with forced collections in supervised child processes, not modelled beyond `gc`",
                    "harness/c09 (Go: wasm encoder, history generator, child supervision, twin runtime, heap churn) and checks/c09.py (case conversion, oracle)"]
     ck.assumptions += ["the model's gc is the most aggressive collector (everything not visibly reachable from host handles and in-flight calls); the real collector may keep more, which can hide but never cause a dangling use",
-                       "where the engines differ the model keeps the fewer visible edges (wazevo function records have no pointer to their instance, the interpreter's GlobalInstance none to its engine)",
+                       "where the engines differ the model keeps the fewer visible edges (wazevo function records have no pointer to their instance); the one edge that is a parameter is GlobalInstance.Me "
+                       "(exported global object -> its exporter's module engine): histories are classified twice, with the edge for the compiler (wazevo owns the globals) and without it for the interpreter, and cut per engine",
                        "a closed instance still executes (wazero consults Closed only when an exported call returns): modelled so; its results are compared as 'ordinary error'",
                        "compiling after the engine behind a closed CompilationCache is not exercised (the compiler engine panics there: reported separately); shared memories and i32 globals are modelled by Engine/LifetimeMem.v (one memory per module, word accesses at non-overlapping addresses, maximum 4 pages); "
-                       "exported/imported funcref globals are modelled and proved about but appear in the run only as the fixed F08b witness",
+                       "exported/imported funcref globals (immutable and mutable, initialised with ref.func / ref.null / global.get, element items global.get, global-only importers) are generated; "
+                       "the engine keeps closed compiled modules reachable from vacated slots of sortedCompiledModules until later compilations overwrite them (a leak that hides dangling code): 'xc' steps compile further unrelated modules",
                        "F08-class histories (a funcref placed by parameter into a holder that does not track its definer) are cut before the dangling use; the canonical F08 and F08b witnesses are executed in their own children"]
     proofs_ok = ck.proofs()
     n = 32 if tier == "quick" else 800
@@ -260,31 +354,51 @@ def run(tier, seed):
     for h in hs:
         h["ops"] = h.get("ops") or []; h["mods"] = h.get("mods") or []
     modelled = [h for h in hs if not h.get("probe")]
-    preds, err = classify(modelled)
-    if preds is not None:
-        it = iter(preds); preds = [([] if h.get("probe") else next(it)) for h in hs]
-    if preds is None:
-        ck.violation("model-eval", {"kind": "model-eval"}, {"out": err[-3000:]}, no_input=True)
-        return ck.finish()
+    for h in hs: h["pred"] = {}
+    for eng in ENGINES:
+        preds, err = classify(modelled, eng)
+        if preds is None:
+            ck.violation("model-eval", {"kind": "model-eval", "engine": eng}, {"out": err[-3000:]}, no_input=True)
+            return ck.finish()
+        it = iter(preds)
+        for h in hs: h["pred"][eng] = [] if h.get("probe") else next(it)
     dist = {"histories": len(hs), "model_safe": 0, "model_F08_class": 0, "ops": {}, "pred": {0: 0, 1: 0, 2: 0}, "steps_executed": 0,
             "obs": {"same_as_twin": 0, "ordinary_error": 0}, "in_flight_blocks": 0,
             "shared_memory": {"histories_with_shared_memory": 0, "histories_with_shared_global": 0, "mem_ops": 0, "host_grows": 0,
                               "grows_after_definer_closed": 0, "uses_through_closed_definer": 0, "uses_through_closed_importer": 0,
                               "mem_in_flight_leaves": 0, "mem_steps_compared_with_model": 0,
-                              "model_class": {"value": 0, "ordinary_error": 0, "trap_oob": 0, "no_result": 0, "freed": 0}}}
-    md = dist["shared_memory"]
-    for h, p in zip(hs, preds):
-        h["pred"] = p
+                              "model_class": {"value": 0, "ordinary_error": 0, "trap_oob": 0, "no_result": 0, "freed": 0}},
+            "funcref_globals": {"histories_with_exported_immutable_funcref_global": 0, "histories_with_exported_mutable_funcref_global": 0,
+                                "histories_with_imported_funcref_global": 0, "histories_with_global_only_importer": 0,
+                                "histories_with_global_get_element_items_or_initialisers": 0, "histories_with_extra_compile_steps": 0,
+                                "extra_compile_steps_executed": 0, "extra_modules_compiled": 0, "reads_of_imported_global": 0,
+                                "reads_after_exporter_closed_dropped_collected": 0, "reads_after_exporter_collected_by_global_only_importer": 0,
+                                "model_safe_on_compiler_but_dangling_on_interpreter": 0}}
+    md = dist["shared_memory"]; gd = dist["funcref_globals"]
+    for h in hs:
+        p = h["pred"]["compiler"]
+        h["cut"] = -1
         if not h.get("witness"):
-            h["cut"] = cut_of(h, p)
-            dist["model_safe" if h["cut"] < 0 else "model_F08_class"] += 1
+            # the engines differ in one edge of the model (GlobalInstance.Me): a history is cut per engine
+            h["cuts"] = {eng: cut_of(h, h["pred"][eng]) for eng in ENGINES}
+            dist["model_safe" if h["cuts"]["compiler"] < 0 else "model_F08_class"] += 1
+            if h["cuts"]["compiler"] < 0 and h["cuts"]["interp"] >= 0: gd["model_safe_on_compiler_but_dangling_on_interpreter"] += 1
             for o in h["ops"]:
                 dist["ops"][o[0]] = dist["ops"].get(o[0], 0) + 1
                 if o[0] == "enter": dist["in_flight_blocks"] += 1
+            if any(not mut for m in h["mods"] for mut, _i in (m.get("expg") or [])): gd["histories_with_exported_immutable_funcref_global"] += 1
+            if any(mut for m in h["mods"] for mut, _i in (m.get("expg") or [])): gd["histories_with_exported_mutable_funcref_global"] += 1
+            if any(m.get("impg") for m in h["mods"]): gd["histories_with_imported_funcref_global"] += 1
+            if any(m.get("gonly") for m in h["mods"]): gd["histories_with_global_only_importer"] += 1
+            if any(m.get("gelems") or any(i <= -2 for _m, i in (m.get("expg") or [])) for m in h["mods"]): gd["histories_with_global_get_element_items_or_initialisers"] += 1
+            if any(o[0] == "xc" for o in h["ops"]): gd["histories_with_extra_compile_steps"] += 1
+        elif h["witness"] == "GIMM":
+            h["cuts"] = {"compiler": cut_of(h, h["pred"]["compiler"])}    # interpreter: uncut (the witness of the finding)
         for x in p: dist["pred"][x] += 1
     for h in hs:
         if any(m.get("mem") or m.get("impm") for m in h["mods"]): md["histories_with_shared_memory"] += 1
         if any(m.get("gi") or m.get("impgi") for m in h["mods"]): md["histories_with_shared_global"] += 1
+    for h in hs: h["predm"] = h["pred"]["compiler"]      # whether an instantiation succeeds does not depend on the engine
     mpreds, err = mclassify([h for h in hs if not h.get("probe") and not h.get("witness")])
     if mpreds is None:
         ck.violation("model-eval", {"kind": "model-eval", "model": "LifetimeMem"}, {"out": err[-3000:]}, no_input=True)
@@ -292,7 +406,7 @@ def run(tier, seed):
     runf = os.path.join(WORK, "cases", "c09_run_%d.jsonl" % seed)
     with open(runf, "w") as f:
         for h in hs:
-            f.write(json.dumps({k: v for k, v in h.items() if k != "pred"}) + "\n")
+            f.write(json.dumps({k: v for k, v in h.items() if k not in ("pred", "predm")}) + "\n")
     rc, out = sh([binp, "-run", runf, "-par", "12", "-timeout", "60s"], timeout=3000)
     res = [json.loads(l) for l in out.split("\n") if l.startswith("{")]
     if rc != 0 or len(res) != 2 * len(hs):
@@ -301,26 +415,34 @@ def run(tier, seed):
     byid = {h["id"]: h for h in hs}
     ck.cases = len(res)
     shown = set()
+    failing = {}
     def viol(kind, sig, detail, **kw):
         key = (kind, sig.get("engine"))
+        hid = (detail.get("history") or {}).get("id")
+        l = failing.setdefault("%s/%s" % (kind, sig.get("engine")), [])
+        if hid is not None and hid not in l and len(l) < 40: l.append(hid)
         if key in shown: return
         shown.add(key); ck.violation(kind, sig, detail, **kw)
     f08 = {}
     nontrivial = set()
     for r in res:
-        h = byid[r["id"]]; p = h["pred"]; eng = r["engine"]
-        if h.get("witness"):
+        h = byid[r["id"]]; eng = r["engine"]; p = h["pred"][eng]
+        # GIMM on the compiler is an ordinary model-safe history; on the interpreter it is the witness of a finding
+        if h.get("witness") and not (h["witness"] == "GIMM" and eng == "compiler"):
             key = (h["witness"], "%s/%s%s" % (eng, "cached" if h["cached"] else "uncached", "/no-churn" if h.get("nochurn") else ""))
             if h["witness"] == "MEMFREE": key = (h["witness"], "%s/%s" % (eng, h["probe"]))
             if r.get("crash"):
                 f08[key] = "crash at step %d: %s" % (r["step"], r["crash"])
+            elif h["witness"] == "GIMM":
+                bad = [(i, a, b) for i, (a, b) in enumerate(zip(r["obs"], r["twin"])) if a != b and not a.startswith(ORDINARY)]
+                f08[key] = ("step %d %s returned %s, twin %s" % (bad[0][0], json.dumps(h["ops"][bad[0][0]]), bad[0][1], bad[0][2])) if bad else None
             elif r["obs"][-1] != r["twin"][-1]:
                 f08[key] = ("%s returned %s, twin %s" % ("load" if h["witness"] == "MEMFREE" else "call_indirect", r["obs"][-1], r["twin"][-1])) + \
                            ("; Close: %s" % r["obs"][2] if h["witness"] == "MEMFREE" else "")
             else:
                 f08[key] = None
             continue
-        brief = {"id": h["id"], "engine": eng, "cached": h["cached"], "mods": h["mods"], "ops": h["ops"], "cut": h["cut"], "pred": p}
+        brief = {"id": h["id"], "engine": eng, "cached": h["cached"], "mods": h["mods"], "ops": h["ops"], "cut": (h.get("cuts") or {}).get(eng, -1), "pred": p}
         if r.get("crash"):
             kind = "child-timeout" if r["crash"] == "timeout" else "child-crash"
             viol(kind, {"kind": kind, "engine": eng}, {"step": r["step"], "op": h["ops"][r["step"]] if 0 <= r["step"] < len(h["ops"]) else None,
@@ -329,6 +451,7 @@ def run(tier, seed):
         obs, twin = r["obs"], r["twin"]
         mp = mpreds.get(h["id"])
         if mp and eng == "compiler": mem_dist(h, obs, md)
+        if eng == "compiler" and not h.get("witness"): glob_dist(h, obs, gd)
         seen_close = seen_gc = False
         for i, (a, b) in enumerate(zip(obs, twin)):
             k = h["ops"][i][0]
@@ -366,9 +489,12 @@ def run(tier, seed):
             elif p[i] == 1 and not ordinary and not (a == b and a.startswith("e:")):
                 viol("model-differs", {"kind": "model-differs", "engine": eng}, {"step": i, "op": h["ops"][i], "obs": a, "twin": b, "pred": 1, "history": brief}, no_input=True)
     ck.distinct = len(nontrivial)
+    if failing: dist["failing_histories"] = failing      # ids of all histories behind the (deduplicated) violations
     ck.dist = dist
-    ck.samples = [dict(ops=h["ops"][:14], pred=h["pred"][:14], cut=h.get("cut")) for h in hs[:3]]
-    ck.extra["rule"] = ("histories generated from VERIF_SEED over 2-4 modules (exporter of functions and a table; importers with private tables / funcref globals; "
+    ck.samples = [dict(ops=h["ops"][:14], pred=h["pred"]["compiler"][:14], cuts=h.get("cuts")) for h in hs[:3]]
+    ck.extra["rule"] = ("histories generated from VERIF_SEED over 2-4 modules (exporter of functions and a table; importers with private tables / funcref globals; exported funcref globals, immutable "
+                        "(ref.func / ref.null / global.get of an imported one) and mutable, imported by later modules - in two of five cases as their ONLY import - read by call_indirect, copied into tables / globals, "
+                        "handed on by parameter, used by element items and initialisers `global.get g`; 'xc' steps compile+instantiate+close further unrelated modules; 8 fixed global-only-importer histories; "
                         "store-by-parameter imports; in two of three graphs a shared memory and a shared mutable i32 global: defined+exported by one module, imported (and re-exported) by later ones "
                         "together with accessor functions msize/mload/mstore/mgrow/gget/gset of earlier modules; ops: use through own code / through an imported accessor of a possibly closed instance / by the host "
                         "(api.Memory Size, Read, Write, Grow), grow after the definer is closed, in-flight continuations into memory code; 9 fixed closed-definer-then-grow histories), classified by the Coq model (vm_compute of Lifetime.classify), each executed on both engines in its own supervised "
@@ -380,7 +506,12 @@ def run(tier, seed):
            "MEMFREE": (MEMFREE_SIG, "experimental.WithMemoryAllocator (allocator backed by Go slices whose Free poisons the buffer with 0xdd); A defines+exports a memory, B imports it; A.store(8,111); "
                        "close the IMPORTER B (alloc-importer) or the DEFINER A (alloc-definer); the other, live instance calls load(8)",
                        "LifetimeMem under policy user_allocator (close frees the buffer of the memory the instance is bound to) predicts OFreed at the last step; theorem C09_allocator_close_frees_shared_memory_refuted; "
-                       "code: ModuleInstance.ensureResourcesClosed calls m.MemoryInstance.expBuffer.Free() although m.MemoryInstance may be imported / still imported by others")}
+                       "code: ModuleInstance.ensureResourcesClosed calls m.MemoryInstance.expBuffer.Free() although m.MemoryInstance may be imported / still imported by others"),
+           "GIMM": (GIMM_SIG, "INTERPRETER: A exports an IMMUTABLE funcref global g = ref.func A.f; M imports g and nothing else from A (element item `global.get g`, private global initialised with `global.get g`, "
+                    "table.set 0 (global.get g)); close A and its compiled module; drop both handles; one more unrelated compile+instantiate; gc; M: call_indirect through g and through the copies",
+                    "Lifetime.classify with g_me = false (the interpreter's module engine does not own the globals: buildGlobals leaves GlobalInstance.Me nil, so nothing leads from the importer to the exporter's "
+                    "module engine and its function records) predicts 2 at the first use after the collection; theorem C09_immutable_global_without_edge_refuted; with g_me = true (wazevo) the same history is safe "
+                    "(C09_immutable_global_import_keeps_definer) and is executed as an ordinary model-safe history on the compiler")}
     for w, (sig, what, model) in WIT.items():
         rep = {k[1]: v for k, v in sorted(f08.items()) if k[0] == w}
         ck.extra[w + "_witness"] = rep
@@ -390,6 +521,6 @@ def run(tier, seed):
             ck.note("%s witness did NOT reproduce on either engine in this run: %s" % (w, json.dumps(rep)))
         for k, v in rep.items():
             if v is None: ck.note("%s witness not observed on %s (dangling memory not reused / still mapped in this run)" % (w, k))
-    if not proofs_ok and not [v for v in ck.violations if v["kind"] not in ("dangling-funcref-private-table", "dangling-funcref-imported-global", "shared-memory-freed-on-close")]:
+    if not proofs_ok and not [v for v in ck.violations if v["kind"] not in ("dangling-funcref-private-table", "dangling-funcref-imported-global", "shared-memory-freed-on-close", GIMM_SIG["kind"])]:
         ck.violation("proof-broken", {"kind": "proof-broken"}, getattr(ck, "proof_failure", {}), no_input=True)
     return ck.finish()
